@@ -1,4 +1,7 @@
 """C09 — an HTLC is forwarded only if it meets the advertised policy and loses no money."""
+import json
+import os
+
 from lib.verif import *
 
 THEOREMS = [
@@ -136,8 +139,56 @@ def predicate(c):
     return fails
 
 
+def sel_predicate(c):
+    """The add goes to a link only if that link is eligible and its
+    CheckHtlcForward returned nil; it fails only if no link admits."""
+    admit = [i for i in range(len(c["elig"])) if c["elig"][i] and c["checks"][i] == 0]
+    if c["chosen"] >= 0:
+        if c["chosen"] not in admit:
+            return ["forwarded over link %d which is %s" % (
+                c["chosen"], "not eligible" if not c["elig"][c["chosen"]]
+                else "rejecting (check=%d)" % c["checks"][c["chosen"]])]
+        return []
+    if admit:
+        return ["failed back although link(s) %s admit the htlc" % admit]
+    return []
+
+
 def inputs_of(c):
     return {k: v for k, v in c.items() if k not in ("case", "cls", "name")}
+
+
+def replay(ctx):
+    """--replay: re-evaluate the recorded case against the CURRENT tree: the
+    harness re-runs exactly that input (VERIF_REPLAY_CASE) on the real code."""
+    d = json.load(open(ctx.replay))
+    c = (d.get("detail") or {}).get("case")
+    if not c or c.get("kind") == "select":
+        ctx.note("replay file carries no single policy case; running the normal check")
+        ctx.replay = None
+        return run(ctx)
+    ctx.proof_stage(MODULE, THEOREMS, TARGETS)
+    rc, trace, out = run_harness(ctx.uid("r"), "htlcswitch", HARNESS, "^TestVerifPolicy$",
+                                 env={"VERIF_REPLAY_CASE": json.dumps(inputs_of(c)), "VERIF_CASES": "0"})
+    rows = [r for r in read_jsonl(trace) if r.get("cls") == "replay"]
+    if rc != 0 or not rows:
+        ctx.violation("harness_failed", "TestVerifPolicy", {"log": out[-4000:]},
+                      signature="harness", failing_input=False)
+        return
+    r = rows[0]
+    f = predicate(r)
+    ok, bad, logs = coq_mismatches(ctx.uid("r"), IMPORTS, [case_term(r)], mism="mismatches_all",
+                                   scope="Z_scope")
+    ctx.note("replayed case now yields %s (recorded: %s)" % (r["name"], c.get("name")))
+    if f:
+        ctx.violation("impl_violates_predicate", "C09 replay", {"case": r, "fails": f},
+                      signature="policy %s %s: %s" % (r["kind"], r["name"], f[0]))
+    if bad or not ok:
+        ctx.violation("correspondence_mismatch", "Policy.Exec.check_case (replay)",
+                      {"case": r, "model": bad, "logs": logs}, signature="policy mismatch replay",
+                      failing_input=bool(f))
+    ctx.cov.update({"evaluations": 1, "distinct_nontrivial": 1, "traces_validated_against_impl": 1,
+                    "rule": "single replayed case", "samples": [inputs_of(r)]})
 
 
 def run(ctx):
@@ -147,12 +198,16 @@ def run(ctx):
         "link selection theorem is over Section variables (eligibility and check result per link, "
         "rand.Intn as an arbitrary function)"])
     ncases = {}
+    if ctx.replay:
+        return replay(ctx)
     if ctx.thorough:
         ncases = {"VERIF_CASES": os.environ.get("VERIF_CASES", "300000")}
     rc, trace, out = run_harness(ctx.uid(), "htlcswitch", HARNESS, "^TestVerifPolicy$",
                                  env=ncases, timeout=1500)
-    rows = read_jsonl(trace)
-    if rc != 0 or not rows:
+    allrows = read_jsonl(trace)
+    rows = [c for c in allrows if c["kind"] != "select"]
+    sel = [c for c in allrows if c["kind"] == "select"]
+    if rc != 0 or not rows or not sel:
         ctx.violation("harness_failed", "TestVerifPolicy", {"log": out[-4000:]},
                       signature="harness", failing_input=False)
         return
@@ -185,6 +240,27 @@ def run(ctx):
         ctx.violation("impl_violates_predicate", "C09 Examples.v boundary pair",
                       {"observed": wit.get("example:boundary")},
                       signature="policy example boundary")
+    # ---- link selection (real Switch.handlePacketAdd over mock links)
+    nsel_fail = 0
+    for c in sel:
+        f = sel_predicate(c)
+        if f:
+            nsel_fail += 1
+            if nsel_fail <= 2:
+                ctx.violation("impl_violates_predicate", "C09_switch_picks_only_ok",
+                              {"case": c, "fails": f}, signature="select: " + f[0])
+    sterms = ["S %s %s %d (%d) %d" % (clist([cbool(b) for b in c["elig"]]),
+                                      clist([str(k) for k in c["checks"]]),
+                                      c["req"], c["chosen"], c["reply"]) for c in sel]
+    ok, sbad, logs = coq_mismatches(ctx.uid("s"), IMPORTS, sterms, shard=max(500, len(sterms) // 4 + 1),
+                                    mism="sel_mismatches", scope="Z_scope")
+    if not ok:
+        ctx.violation("correspondence_mismatch", "Policy.Exec.sel_ok (model evaluation failed)",
+                      {"logs": logs}, signature="model-eval", failing_input=False)
+    for ci, _m in sbad[:2]:
+        ctx.violation("correspondence_mismatch", "Policy.Exec.sel_ok",
+                      {"case": sel[ci]}, signature="select mismatch",
+                      failing_input=bool(sel_predicate(sel[ci])))
     # ---- correspondence (kernel path, vm_compute)
     terms = [case_term(c) for c in rows]
     shard = max(200, len(terms) // NCPU + 1)
@@ -234,6 +310,11 @@ def run(ctx):
         "aux_modes": hist(lambda c: c["aux"]),
         "samples": [inputs_of(rows[0]), inputs_of(rows[len(rows) // 2])],
         "correspondence_mismatches": len(bad),
+        "selection_cases": len(sel),
+        "selection_distinct": distinct_count(sel, lambda c: [c["elig"], c["checks"], c["req"]]),
+        "selection_outcomes": {k: sum(1 for c in sel if c["name"] == k)
+                               for k in sorted({c["name"] for c in sel})},
+        "selection_mismatches": len(sbad) + nsel_fail,
         "witness_replays_on_real_code": wit,
     })
     ctx.assumptions += [
